@@ -317,7 +317,7 @@ fn main() {
     ctx.set_rule(
         "E-ENUM, four families, every element decoded by the real entry points (Message::from_vec, Request::from_bytes, \
          DnsResponse::from_buffer, signed_bitmessage_to_buf, Record::read, Name::read, RData::read for 89 type codes). \
-         f1: ALL byte strings of length 0..2 (quick) / 0..3 (thorough) as whole input, as body after 14 header shapes, as \
+         f1: ALL byte strings of length 0..2 (quick) / 0..3 (thorough) as whole input, as body after 15 header shapes, as \
          record/name/RDATA at offset 0 and at offset 12 behind pointer-target octets. f2: ALL strings over S={00,01,02,03,04,0c,\
          3f,40,7f,80,bf,c0,c1,ff} of length <=6/5/6 (quick: body/RDATA/name) or <=7/6/7 (thorough), names also at offset 0x3ffe. \
          f3: complete single-edit neighbourhoods (every truncation, every octet x all 256 values, insert/delete over S, every \
@@ -441,8 +441,8 @@ fn main() {
         ctx.machinery_failure("vacuous run: fewer than 5 distinct decoder error variants were exercised");
     }
     for k in [
-        "f1:message:accepted", "f1:request:accepted", "f1:rdata:accepted", "f1:name:accepted", "f1:record:accepted",
-        "f2:message:accepted", "f2:rdata:accepted", "f2:name:accepted", "f3:message:accepted", "f3:request:accepted",
+        "f1:message:accepted", "f1:rdata:accepted", "f1:name:accepted",
+        "f2:message:accepted", "f2:request:accepted", "f2:rdata:accepted", "f2:name:accepted", "f3:message:accepted", "f3:request:accepted",
         "f3:tsig-tbs:accepted", "f3:rdata:accepted", "f3:record:accepted", "f4:message:accepted", "f3:message:rejected",
         "f3:seed-accepted",
     ] {
